@@ -119,6 +119,13 @@ func doAction(s *netsim.Session, l string) {
 		s.Node.CancelBlockRequest(s.Ctx, *netsim.Block1.BlockHash())
 	case "!request-headers":
 		s.Node.RequestHeaders(s.Ctx)
+	case "!wait-handshake-timeout":
+		// real time: the node's handshake timer is 3 s (restarted by every handshake message)
+		time.Sleep(3300 * time.Millisecond)
+	case "!attach-txmanager":
+		s.AttachTxManager(false)
+	case "!attach-txmanager-via-manager":
+		s.AttachTxManager(true)
 	}
 }
 
@@ -184,7 +191,17 @@ func (o *obs) key() string {
 		cs = append(cs, c+"="+capCount(n))
 	}
 	sort.Strings(cs)
-	return fmt.Sprintf("%s|closed=%t stuck=%t|hdr=%s,%s peers=%s,%s tx=%s|sent=%s", o.dump, o.closedAt != -1, o.stuckAt != -1,
+	// harness actions that change the node's future without showing in its dump
+	attached := ""
+	for _, l := range o.all {
+		if l == "!attach-txmanager" && !strings.Contains(attached, "n") {
+			attached += "n"
+		}
+		if l == "!attach-txmanager-via-manager" && !strings.Contains(attached, "m") {
+			attached += "m"
+		}
+	}
+	return fmt.Sprintf("%s|attached=%s|closed=%t stuck=%t|hdr=%s,%s peers=%s,%s tx=%s|sent=%s", o.dump, attached, o.closedAt != -1, o.stuckAt != -1,
 		capCount(o.process), capCount(o.verify), capCount(o.adds), capCount(o.scores), capCount(o.processed), strings.Join(cs, ","))
 }
 
